@@ -66,7 +66,12 @@ class GlobalLTransactionView(GlobalTransactionView):
     def _skip_input(self):
         off = 32 + 4 + 5
         self.stream.seek(32, 1)  # txid
-        vout = int.from_bytes(self.stream.read(4), "little")
+        vout = self.stream.read(4)
+        if len(vout) < 4:
+            # seek() goes past the end of the stream without complaint,
+            # so this read is what stops a loop over a claimed number of inputs
+            raise PSBTError("Unexpected end of the global transaction")
+        vout = int.from_bytes(vout, "little")
         self.stream.seek(5, 1)  # scriptsig, sequence
         is_pegin = False
         if vout != 0xFFFFFFFF:
@@ -147,7 +152,10 @@ class PSETView(PSBTView):
 
     def _hash_to(self, h, l):
         while l > 32:
-            h.update(self.stream.read(32))
+            chunk = self.stream.read(32)
+            if len(chunk) < 32:
+                raise PSBTError("Unexpected end of the stream")
+            h.update(chunk)
             l -= 32
         h.update(self.stream.read(l))
 
